@@ -151,7 +151,17 @@ func c14Verify(k *c14Key, h crypto.Hash, msg string, sig []byte) bool {
 // ---------- generators ----------
 
 func c14Relay(r *mrand.Rand) (string, string) {
-	switch r.Intn(12) {
+	switch r.Intn(13) {
+	case 12:
+		// a value that is itself the canonical query-escaped form of ANOTHER string (tokens with '+', already escaped URLs):
+		// it is an opaque value and must arrive as given
+		alpha := "abXY09 +/=&%?#:é~-_."
+		var b strings.Builder
+		for n := 2 + r.Intn(14); n > 0; n-- {
+			b.WriteByte(alpha[r.Intn(len(alpha))])
+		}
+		v := []string{"kX3+Zm9vYmFyQmF6", "100%25", "https%3A%2F%2Fsp.example.com%2Freturn%3Fx%3D1", "%E2%9C%93", url.QueryEscape(b.String()), url.QueryEscape(b.String())}[r.Intn(6)]
+		return v, "escaped-looking"
 	case 0, 1:
 		return "", "empty"
 	case 2:
@@ -284,6 +294,30 @@ func c14IdPURL(r *mrand.Rand) c14URL {
 
 func c14Doc(r *mrand.Rand, sp *saml2.SAMLServiceProvider, flow string) (*etree.Document, string) {
 	switch r.Intn(10) {
+	case 2, 3:
+		// a document that carries the library's enveloped signature (what BuildAuthRequestDocument / BuildLogoutRequestDocument
+		// return): the application may hand the same document to the redirect builder and to the POST builder
+		var d *etree.Document
+		var err error
+		func() {
+			defer func() {
+				if p := recover(); p != nil {
+					err = fmt.Errorf("panic: %v", p)
+				}
+			}()
+			if flow == "logout-redirect" {
+				d, err = sp.BuildLogoutRequestDocument("user@example.com", "session-1")
+			} else {
+				saved := sp.SignAuthnRequests
+				sp.SignAuthnRequests = true
+				d, err = sp.BuildAuthRequestDocument()
+				sp.SignAuthnRequests = saved
+			}
+		}()
+		if err == nil && d != nil {
+			return d, "library:signed-document"
+		}
+		return c14Doc(r, sp, flow)
 	case 0:
 		if flow == "logout-redirect" {
 			d, err := sp.BuildLogoutRequestDocumentNoSig("user@example.com", "session-1")
@@ -403,6 +437,25 @@ func c14Run(c *Ctx, n int) {
 			sp.SignAuthnRequests = false
 		}
 
+		// ---- history: the SAME SP object has already built a redirect for ANOTHER endpoint (the IdP endpoint was re-configured
+		// in between); everything below is about the endpoint configured now
+		if r.Intn(4) == 0 {
+			realSSO, realSLO := sp.IdentityProviderSSOURL, sp.IdentityProviderSLOURL
+			sp.IdentityProviderSSOURL, sp.IdentityProviderSLOURL = "https://old-idp.example.com/sso?tenant=old", "https://old-idp.example.com/slo?tenant=old"
+			func() {
+				defer func() { recover() }()
+				if flow == "logout-redirect" {
+					if d, e := sp.BuildLogoutRequestDocumentNoSig("warm@example.com", "_warm"); e == nil {
+						sp.BuildLogoutURLRedirect("warm", d)
+					}
+				} else if d, e := sp.BuildAuthRequestDocumentNoSig(); e == nil {
+					sp.BuildAuthURLRedirect("warm", d)
+					sp.BuildAuthURLFromDocument("warm", d)
+				}
+			}()
+			sp.IdentityProviderSSOURL, sp.IdentityProviderSLOURL = realSSO, realSLO
+			c.Count("history:endpoint-reconfigured-after-first-redirect")
+		}
 		// ---- run the implementation
 		var out string
 		var err error
@@ -442,6 +495,11 @@ func c14Run(c *Ctx, n int) {
 					out, err = sp.BuildLogoutURLRedirect(relay, doc)
 				default:
 					out, err = sp.BuildAuthURLFromDocument(relay, doc)
+				}
+				// the redirect builders only READ the caller's document (it may be posted or logged afterwards)
+				if after, _ := doc.WriteToString(); err == nil && after != docBytes {
+					c.Violate("spec", "c14:document-argument-modified", "the caller's document is not the same after the redirect URL was built",
+						map[string]interface{}{"flow": flow, "idp_url": iu.raw, "relay_state": relay, "document": docBytes, "document_after": after})
 				}
 			}
 		}()
